@@ -12,7 +12,9 @@ import GaeaVerif.Spec.ShardCalendar
   * year / month / day rule: a string spelling a real date(-time) and a unix
     timestamp whose local civil year is 0…9999 are placed at their period
     number; a string too short for the fields the rule reads, or with a
-    non-digit in them, is rejected; nothing raises a run-time panic;
+    non-digit in them, is rejected, and so is, under the month and day rules, a
+    timestamp whose civil year is outside 0…9999 (it has no `YYYY-MM-DD`
+    spelling); nothing raises a run-time panic;
   * sub-table list: for a well-formed, ascending `date_range` it is exactly the
     list of period numbers, each under the slice of its entry.
   Nothing is demanded for other inputs.
@@ -32,16 +34,13 @@ def numeral? (s : List Nat) : Option Int :=
 inductive Demand where
   | place (i : Int) (tag : String)      -- must be (ok i)
   | reject (tag : String)               -- must be an error
-  | rejectOr (tag : String)             -- placing it is the named violation, anything else is fine
   | noPanic
 
 def rangeDemand (n : Nat) (limit : Int) (key : Key) : Demand :=
   let num (k : Int) : Demand :=
     match rangeTable n limit k with
     | some i => .place i "range-key"
-    | none =>
-      if k = 2 ^ 63 - 1 ∧ (n : Int) * limit = 2 ^ 63 - 1 then .rejectOr "range-maxint64-end-open-key-placed"
-      else .reject "range-outside-key"
+    | none => .reject "range-outside-key"
   match key with
   | .int v => num v
   | .int64 v => num v
@@ -58,7 +57,7 @@ def dateDemand (rule : String) (tz : Int) (key : Key) : Demand :=
   let stamp (v : Int) : Demand :=
     match dateTimeOfUnix tz v with
     | some c => .place (periodNumber rule c) "date-timestamp"
-    | none => if rule == "date_year" then .noPanic else .rejectOr "timestamp-outside-years-0-9999-placed"
+    | none => if rule == "date_year" then .noPanic else .reject "timestamp-outside-years-0-9999"
   match key with
   | .int v => stamp v
   | .int64 v => stamp v
@@ -76,7 +75,6 @@ def judge (d : Demand) (out : Sexp) : Option String :=
     match d with
     | .place i tag => if v.asInt? == some i then none else some s!"{tag}-misplaced"
     | .reject tag => some s!"{tag}-accepted"
-    | .rejectOr tag => some tag
     | .noPanic => none
   | .list [.atom "err", _] =>
     match d with
@@ -84,9 +82,8 @@ def judge (d : Demand) (out : Sexp) : Option String :=
     | _ => none
   | _ => some "unparsable"
 
-/-- The classes of known/C09.json (reported last, see `oracle`). -/
-def listedClasses : List String :=
-  ["timestamp-outside-years-0-9999-placed", "range-maxint64-end-open-key-placed"]
+/-- The classes of known/C09.json (reported last, see `oracle`): none is open. -/
+def listedClasses : List String := []
 
 def validRange (cfg : ShardCfg) : Option Nat :=
   if cfg.locations.all (0 ≤ ·) ∧ 0 < cfg.tableRowLimit ∧
